@@ -195,7 +195,16 @@ pub fn run_case(ctx: &mut Ctx, c: &Case) {
         for &mode in modes {
             let ms = if mode == Mode::Auth && p.layers & 1 != 0 { "auth" } else if p.layers & 1 != 0 { "unauth" } else { "plain" };
             let bound = if ms == "auth" { &auth_bound } else { &full };
-            let r = guarded(|| drv::repair_and_read(snap, &b.sks, mode, &mut rng));
+            // one snapshot in three is repaired from a source that returns short reads (pipe, socket)
+            let sched = match (fi + p.seed as usize) % 6 {
+                0 => Sched::Max(50),
+                1 => Sched::Cycle(7),
+                _ => Sched::All,
+            };
+            if !matches!(sched, Sched::All) {
+                ctx.count("snapshot_repaired_from_short_read_source");
+            }
+            let r = guarded(|| drv::repair_and_read(drv::ThrottledSrc::new(snap, if snap.len() > 600_000 { Sched::Max(4095) } else { sched.clone() }), &b.sks, mode, &mut rng));
             match r {
                 Err((loc, msg)) => ctx.violation("C08", &format!("panic:{loc}:{}", crate::ctx::msg_class(&msg)), scen(), json!({"panic": msg, "during": "repair of a flush snapshot"})),
                 Ok(Err(e)) => {
